@@ -7,6 +7,7 @@ import (
 	"io"
 	"os"
 	"path/filepath"
+	"reflect"
 	"strings"
 	"time"
 	"unicode/utf8"
@@ -35,6 +36,7 @@ var c19LongPrefix = "'" + strings.Repeat("x", 4088) + "'." // 4091 bytes: 'b' of
 
 var c19Sources = []string{
 	"", "a", "ab", "é日", "a.", "a. ", "a. b.", "f(X). %c\n g.", "a.b", "0'a. x", "'q w'. ", "foo.\n", "a. b", "ab\n", "p(1).\nq(2). r",
+	"foo./* c */ bar. b.\n", "a./**/b. c",
 }
 
 var c19ByteSources = []string{"", "\x00", "ab", "\xff\xfe", "abc"}
@@ -93,6 +95,8 @@ type c19Model struct {
 	eof    string
 	dead   bool // after an error whose effect on the cursor is unspecified: nothing more is asserted
 	stale  bool // the source grew and the stream has not looked at it yet: its end-of-stream state is not asserted
+	// lenient: an end char directly followed by a bracketed comment counts as an end (see c19Run)
+	lenient bool
 }
 
 var c19ReadSkipsLayout = -1 // don't-care resolved by observing the implementation once
@@ -152,7 +156,7 @@ func (m *c19Model) endToken(from int) int {
 				i++
 			}
 		case c == '.':
-			if i+1 >= len(m.data) || strings.ContainsRune(" \n\t%", rune(m.data[i+1])) {
+			if i+1 >= len(m.data) || strings.ContainsRune(" \n\t%", rune(m.data[i+1])) || (m.lenient && strings.HasPrefix(string(m.data[i+1:]), "/*")) {
 				// a '.' that is part of a graphic token (e.g. "=..") does not occur in the sources
 				return i
 			}
@@ -470,6 +474,22 @@ func c19Run(c *c19Case) (exp, act, sig string, ok bool) {
 		goals = append(goals, g)
 		plan = append(plan, obs{op, v, m.step(op)})
 	}
+	// An end char directly followed by a bracketed comment ("foo./* c */") is no end by the letter of the standard (the
+	// read raises a syntax error, after which nothing is asserted). A reader that takes it for one is admitted, too,
+	// but then the cursor stands right after the end char: a second plan, followed from the first read that delivers
+	// a term where the strict plan expects the error.
+	var plan2 []obs
+	diverge := -1
+	if strings.Contains(string(data), "./*") && !c.Conj {
+		m2 := &c19Model{data: data, binary: c.Binary, eof: c.Eof, lenient: true}
+		for i, op := range c.Ops {
+			_, v := c19Goal(op, i)
+			plan2 = append(plan2, obs{op, v, m2.step(op)})
+			if diverge < 0 && !reflect.DeepEqual(plan2[i].e, plan[i].e) {
+				diverge = i
+			}
+		}
+	}
 	check := func(i int, status string, val string, errText string) (string, string, string, bool) {
 		o := plan[i]
 		where := fmt.Sprintf("op %d (%s) of %v", i+1, o.op, c.Ops)
@@ -548,6 +568,10 @@ func c19Run(c *c19Case) (exp, act, sig string, ok bool) {
 			}
 		default:
 			return fmt.Sprintf("op %d (%s) succeeds once", i+1, plan[i].op), o.String(), "stream: " + plan[i].op + " does not succeed once", false
+		}
+		if i == diverge && status == "ok" {
+			plan = plan2 // the lenient reading: everything from here on follows from it
+			m.dead = false
 		}
 		if e, a, s, okk := check(i, status, val, o.Err); !okk {
 			return e, a, s, false
@@ -774,12 +798,12 @@ func c19Replay(b []byte) (string, string, bool) {
 
 func init() {
 	h.Register(&h.Check{
-		ID: "C19",
-		Rule: "all sequences of <= L input operations out of {get_char, peek_char, read_term, at_end_of_stream, position, end_of_stream, a failing peek with an instantiated argument, get/peek with the end-of-stream value (end_of_file, -1) as instantiated argument} (thorough: plus get_code, peek_code, a byte operation on a text stream) over 15 short source texts (ASCII and multi-byte, with and without trailing layout, comments, 0'c, quoted atoms, text ending inside a term) and 3 long ones whose operations straddle byte 4096 of the buffer, x stream kinds {file opened by open/4 with each eof_action, host strings.Reader, a one-byte-at-a-time reader, a reader that returns data together with io.EOF, a seekable strings.Reader and an *os.File handed over after the host consumed a header from them}; a host source that GROWS after it reported end of file (environment events feed1/feed2 interleaved with the operations, all sequences of <= 4 (5) over 9 symbols on 3 initial texts); the same for binary files over 5 byte sources with {get_byte, peek_byte, ..., and the text operations get_char and read_term, which must be refused without any effect}; every sequence issued BOTH as separate queries and as consecutive goals of one conjunction; plus all sequences of <= L output operations to the host writer and to a file. Distinct = case.",
-		Explanation: "state = (byte offset, end-of-file delivered) of the reference cursor; transition = one input predicate on the real stream; every operation's observed value is compared with the reference cursor model (peeks leave the cursor, reads deliver consecutive characters/bytes/terms, end_of_file then the eof_action, position = bytes consumed, end_of_stream never at/past while input remains and past once end_of_file was delivered)",
-		Assumptions: []string{"whether read_term/3 consumes the layout character after the end token is implementation defined and resolved by observing the implementation once", "after a syntax error the cursor is unspecified: the rest of that sequence is not asserted"},
-		Work:        c19Work,
-		Replay:      c19Replay,
+		ID:            "C19",
+		Rule:          "all sequences of <= L input operations out of {get_char, peek_char, read_term, at_end_of_stream, position, end_of_stream, a failing peek with an instantiated argument, get/peek with the end-of-stream value (end_of_file, -1) as instantiated argument} (thorough: plus get_code, peek_code, a byte operation on a text stream) over 17 short source texts (ASCII and multi-byte, with and without trailing layout, comments, a bracketed comment glued to an end char, 0'c, quoted atoms, text ending inside a term) and 3 long ones whose operations straddle byte 4096 of the buffer, x stream kinds {file opened by open/4 with each eof_action, host strings.Reader, a one-byte-at-a-time reader, a reader that returns data together with io.EOF, a seekable strings.Reader and an *os.File handed over after the host consumed a header from them}; a host source that GROWS after it reported end of file (environment events feed1/feed2 interleaved with the operations, all sequences of <= 4 (5) over 9 symbols on 3 initial texts); the same for binary files over 5 byte sources with {get_byte, peek_byte, ..., and the text operations get_char and read_term, which must be refused without any effect}; every sequence issued BOTH as separate queries and as consecutive goals of one conjunction; plus all sequences of <= L output operations to the host writer and to a file. Distinct = case.",
+		Explanation:   "state = (byte offset, end-of-file delivered) of the reference cursor; transition = one input predicate on the real stream; every operation's observed value is compared with the reference cursor model (peeks leave the cursor, reads deliver consecutive characters/bytes/terms, end_of_file then the eof_action, position = bytes consumed, end_of_stream never at/past while input remains and past once end_of_file was delivered)",
+		Assumptions:   []string{"whether read_term/3 consumes the layout character after the end token is implementation defined and resolved by observing the implementation once", "after a syntax error the cursor is unspecified: the rest of that sequence is not asserted"},
+		Work:          c19Work,
+		Replay:        c19Replay,
 		QuickDeadline: 170 * time.Second, ThoroughDeadline: 30 * time.Minute,
 	})
 }
